@@ -4,7 +4,9 @@ import (
 	"bufio"
 	"bytes"
 	"context"
+	"crypto/sha256"
 	"encoding/base64"
+	"encoding/hex"
 	"encoding/json"
 	"errors"
 	"fmt"
@@ -52,6 +54,8 @@ type Op struct {
 	B       string  `json:"b,omitempty"`
 	PB      string  `json:"pb,omitempty"`
 	Form    string  `json:"form,omitempty"`
+	K       string  `json:"k,omitempty"`
+	Sz      string  `json:"sz,omitempty"`
 }
 
 type Schedule struct {
@@ -115,12 +119,16 @@ type journey struct {
 	x       *aux
 	conn    *grpc.ClientConn
 
-	leaseID string
-	msgID   string
-	ncomp   int
-	recvAt  time.Time         // received_at of the message (filter operations select it by "before")
-	mtrace  map[string]string // trace map given with a published message
-	sibs    []sibling
+	leaseID   string
+	msgID     string
+	ncomp     int
+	recvAt    time.Time         // received_at of the message (filter operations select it by "before")
+	mtrace    map[string]string // trace map given with a published message
+	sibs      []sibling
+	nother    int
+	seenNoise []noiseMsg
+	noise     []noiseMsg               // interfering messages that were accepted, as they must be stored
+	held      *workerapipb.DequeueItem // last result of the in-process worker call, still in the consumer's hands
 }
 
 var reSafe = regexp.MustCompile(`[^A-Za-z0-9]+`)
@@ -154,6 +162,8 @@ func (r *Runner) Run(s Schedule) error {
 			err = j.operator(op)
 		case "Extend":
 			err = j.extend(op)
+		case "Other":
+			err = j.other(op)
 		case "Push":
 			err = j.push(op.Outcome, "push", op.B)
 		case "Restart":
@@ -415,6 +425,7 @@ func (j *journey) cleanup() {
 // ---------------------------------------------------------------- events
 
 func (j *journey) dump() (rows []row, sibs []row, other int, err error) {
+	j.seenNoise = j.seenNoise[:0]
 	var raw []queue.VerifRow
 	switch {
 	case j.sql != nil:
@@ -442,6 +453,16 @@ func (j *journey) dump() (rows []row, sibs []row, other int, err error) {
 			sibs = append(sibs, row{ID: e.ID, St: string(e.State), PL: Digest(e.Payload, want), H: h, T: HeaderList(e.Trace), Leak: []string{}})
 			continue
 		}
+		if e.Route == "/aux" {
+			// interfering traffic: published noise carries a given trace map, ingress noise the handler's own
+			p := Digest(e.Payload, e.Payload)
+			nm := noiseMsg{D: p.D, N: p.N, H: mapDigest(e.Headers)}
+			if strings.HasPrefix(e.ID, "oth_") {
+				nm.H = mapDigest(e.Headers, e.Trace)
+			}
+			j.seenNoise = append(j.seenNoise, nm)
+			continue
+		}
 		if e.Route != "/in" {
 			other++
 			continue
@@ -458,6 +479,15 @@ func (j *journey) dump() (rows []row, sibs []row, other int, err error) {
 }
 
 func (j *journey) emitRaw(ev string, fields map[string]any) {
+	// what the in-process consumer was handed one step ago must not have moved under other activity; after that
+	// look the consumer scribbles over it, which in turn must not reach the store (the dump below)
+	held := map[string]any{"n": 0, "pl": PL{D: "", N: 0, Diff: -1}, "h": []HV{}}
+	if j.held != nil {
+		held = map[string]any{"n": 1, "pl": Digest(j.held.GetPayload(), j.payload), "h": HeaderList(j.held.GetHeaders())}
+		scribble(j.held)
+		j.held = nil
+	}
+	fields["held"] = held
 	rows, sibs, other, err := j.dump()
 	if err != nil {
 		fields["dumperr"] = err.Error()
@@ -468,6 +498,12 @@ func (j *journey) emitRaw(ev string, fields map[string]any) {
 	fields["dump"] = rows
 	fields["sibs"] = sibs
 	fields["other"] = other
+	seen := append([]noiseMsg{}, j.seenNoise...)
+	want := append([]noiseMsg{}, j.noise...)
+	sortNoise(seen)
+	sortNoise(want)
+	fields["noise"] = seen
+	fields["nwant"] = want
 	b, err := json.Marshal(fields)
 	if err != nil {
 		panic(err)
@@ -510,34 +546,14 @@ func (j *journey) submit() error {
 	in := j.in
 	status := 0
 	errText := ""
+	var lines [][2]string // header lines in the order and spelling of the sender
+	for _, f := range in.Recv {
+		lines = append(lines, [2]string{SentName(f.N, f.C), j.sentValue(f)})
+	}
 	switch in.Via {
-	case "handler":
-		req := httptest.NewRequest(http.MethodPost, "http://fid.test/in", bytes.NewReader(j.payload))
-		req.Header = http.Header{}
-		for _, f := range in.Recv {
-			// a server hands the handler canonical names, whatever the client wrote
-			k := CanonName(SentName(f.N, f.C))
-			req.Header[k] = append(req.Header[k], j.sentValue(f))
-		}
-		rec := httptest.NewRecorder()
-		j.inst.Handlers["ingress"].ServeHTTP(rec, req)
-		status = rec.Code
-	case "stream":
-		// a body of unknown length, as a handler sees a chunked or HTTP/2 upload: no Content-Length at all
-		req := httptest.NewRequest(http.MethodPost, "http://fid.test/in", struct{ io.Reader }{bytes.NewReader(j.payload)})
-		req.ContentLength = -1
-		req.TransferEncoding = []string{"chunked"}
-		req.Header = http.Header{}
-		for _, f := range in.Recv {
-			k := CanonName(SentName(f.N, f.C))
-			req.Header[k] = append(req.Header[k], j.sentValue(f))
-		}
-		rec := httptest.NewRecorder()
-		j.inst.Handlers["ingress"].ServeHTTP(rec, req)
-		status = rec.Code
-	case "wire", "chunked":
+	case "handler", "stream", "wire", "chunked":
 		var err error
-		status, err = j.submitWire(in.Via == "chunked")
+		status, err = j.ingressSend(in.Via, "/in", j.payload, lines)
 		if err != nil {
 			errText = err.Error()
 		}
@@ -600,7 +616,40 @@ func (j *journey) submit() error {
 
 // submitWire writes the request byte by byte on a real connection to the
 // production ingress listener: header names in the casing of the model.
-func (j *journey) submitWire(chunked bool) (int, error) {
+// ingressSend delivers one request to the ingress of the instance.
+//
+//	handler  in-process, known length            wire     raw bytes on the real listener, Content-Length
+//	stream   in-process, unknown length          chunked  raw bytes on the real listener, Transfer-Encoding: chunked
+func (j *journey) ingressSend(via, path string, payload []byte, lines [][2]string) (int, error) {
+	switch via {
+	case "handler", "stream":
+		var rd io.Reader = bytes.NewReader(payload)
+		if via == "stream" {
+			rd = struct{ io.Reader }{rd} // hides the length: no Content-Length at all
+		}
+		req := httptest.NewRequest(http.MethodPost, "http://fid.test"+path, rd)
+		if via == "stream" {
+			req.ContentLength = -1
+			req.TransferEncoding = []string{"chunked"}
+		}
+		req.Header = http.Header{}
+		for _, l := range lines {
+			// a server hands the handler canonical names, whatever the client wrote
+			k := CanonName(l[0])
+			req.Header[k] = append(req.Header[k], l[1])
+		}
+		rec := httptest.NewRecorder()
+		j.inst.Handlers["ingress"].ServeHTTP(rec, req)
+		return rec.Code, nil
+	case "wire", "chunked":
+		return j.sendWire(via == "chunked", path, payload, lines)
+	}
+	return 0, fmt.Errorf("unknown via %q", via)
+}
+
+// sendWire writes the request byte by byte on a real connection to the
+// production ingress listener: header names in the spelling of the sender.
+func (j *journey) sendWire(chunked bool, path string, payload []byte, lines [][2]string) (int, error) {
 	addr := j.inst.Addrs["ingress"]
 	conn, err := net.DialTimeout("tcp", addr, 5*time.Second)
 	if err != nil {
@@ -610,15 +659,15 @@ func (j *journey) submitWire(chunked bool) (int, error) {
 	_ = conn.SetDeadline(time.Now().Add(60 * time.Second))
 	var hb bytes.Buffer
 	if chunked {
-		hb.WriteString("POST /in HTTP/1.1\r\nHost: fid.test\r\nTransfer-Encoding: chunked\r\n")
+		fmt.Fprintf(&hb, "POST %s HTTP/1.1\r\nHost: fid.test\r\nTransfer-Encoding: chunked\r\n", path)
 	} else {
-		fmt.Fprintf(&hb, "POST /in HTTP/1.1\r\nHost: fid.test\r\nContent-Length: %d\r\n", len(j.payload))
+		fmt.Fprintf(&hb, "POST %s HTTP/1.1\r\nHost: fid.test\r\nContent-Length: %d\r\n", path, len(payload))
 	}
-	for _, f := range j.in.Recv {
-		fmt.Fprintf(&hb, "%s: %s\r\n", SentName(f.N, f.C), j.sentValue(f))
+	for _, l := range lines {
+		fmt.Fprintf(&hb, "%s: %s\r\n", l[0], l[1])
 	}
 	hb.WriteString("\r\n")
-	body := j.payload
+	body := payload
 	if chunked {
 		// no declared length: chunks of uneven sizes, then the last-chunk
 		var cb bytes.Buffer
@@ -653,6 +702,102 @@ func (j *journey) submitWire(chunked bool) (int, error) {
 	resp.Body.Close()
 	<-done
 	return resp.StatusCode, nil
+}
+
+// ---------------------------------------------------------------- other traffic
+
+// noiseMsg is one message of the interfering traffic as it must be stored.
+type noiseMsg struct {
+	D string `json:"d"`
+	N int    `json:"n"`
+	H string `json:"h"` // digest of the header map (and of the given trace map for published noise)
+}
+
+func mapDigest(ms ...map[string]string) string {
+	h := sha256.New()
+	for _, m := range ms {
+		keys := make([]string, 0, len(m))
+		for k := range m {
+			keys = append(keys, k)
+		}
+		sort.Strings(keys)
+		for _, k := range keys {
+			fmt.Fprintf(h, "%d:%s=%d:%s;", len(k), k, len(m[k]), m[k])
+		}
+		h.Write([]byte("|"))
+	}
+	return hex.EncodeToString(h.Sum(nil))[:16]
+}
+
+func sortNoise(n []noiseMsg) {
+	sort.Slice(n, func(a, b int) bool {
+		if n[a].D != n[b].D {
+			return n[a].D < n[b].D
+		}
+		return n[a].H < n[b].H
+	})
+}
+
+// other sends traffic that has nothing to do with the followed message through the same instance: requests to the
+// auxiliary route with bodies as long as / longer than / shorter than the message's, carrying the same header names
+// with other values, over any framing, or a publish batch.  Nothing of it may show in the followed message, and the
+// other messages must be stored as sent, too.
+func (j *journey) other(op Op) error {
+	reps := 3
+	if len(j.payload) > 64<<10 {
+		reps = 1
+	}
+	sent, accepted := 0, 0
+	for i := 0; i < reps; i++ {
+		j.nother++
+		size := len(j.payload)
+		switch op.Sz {
+		case "longer":
+			size += 17 + 3*i
+		case "shorter":
+			size -= 5 + 3*i
+			if size < 0 {
+				size = 0
+			}
+		}
+		body := randBytes(j.r.Seed, fmt.Sprintf("%s/other/%d", j.jid, j.nother), size)
+		hdr := map[string]string{"X-Noise": fmt.Sprintf("n%d", j.nother), CanonName(nameLower["a"]): fmt.Sprintf("noise-a-%d", j.nother),
+			"Content-Type": "application/x-noise"}
+		sent++
+		if op.K == "publish" {
+			// a batch of two: the second item without headers and trace
+			id := fmt.Sprintf("oth_%s_%d", j.jid, j.nother)
+			tr := map[string]string{"noise": fmt.Sprintf("t%d", j.nother)}
+			body2 := randBytes(j.r.Seed, fmt.Sprintf("%s/other2/%d", j.jid, j.nother), size/2)
+			items := []any{
+				map[string]any{"id": id + "a", "route": "/aux", "payload_b64": base64.StdEncoding.EncodeToString(body), "headers": hdr, "trace": tr},
+				map[string]any{"id": id + "b", "route": "/aux", "payload_b64": base64.StdEncoding.EncodeToString(body2)},
+			}
+			b, _ := json.Marshal(map[string]any{"items": items})
+			code, _ := j.admin(http.MethodPost, "/messages/publish", string(b))
+			if code == 200 {
+				accepted++
+				p1, p2 := Digest(body, body), Digest(body2, body2)
+				j.noise = append(j.noise, noiseMsg{D: p1.D, N: p1.N, H: mapDigest(hdr, tr)}, noiseMsg{D: p2.D, N: p2.N, H: mapDigest(nil, nil)})
+			}
+			continue
+		}
+		var lines [][2]string
+		for _, k := range []string{"X-Noise", CanonName(nameLower["a"]), "Content-Type"} {
+			lines = append(lines, [2]string{k, hdr[k]})
+		}
+		code, err := j.ingressSend(op.K, "/aux", body, lines)
+		if err == nil && code >= 200 && code <= 299 {
+			accepted++
+			if op.K == "wire" {
+				hdr["Content-Length"] = strconv.Itoa(len(body))
+			}
+			p := Digest(body, body)
+			j.noise = append(j.noise, noiseMsg{D: p.D, N: p.N, H: mapDigest(hdr)})
+		}
+	}
+	j.emit("Other", map[string]any{"k": op.K, "sz": op.Sz}, map[string]any{"sent": sent, "accepted": accepted})
+	return nil
 }
 
 // ---------------------------------------------------------------- pull side
@@ -873,6 +1018,7 @@ func (j *journey) deq(op Op) error {
 		time.Sleep(3 * time.Millisecond)
 	}
 	var m deqItem
+	var hold *workerapipb.DequeueItem
 	n := 0
 	var kp [][]byte
 	var kh []map[string]string
@@ -888,8 +1034,12 @@ func (j *journey) deq(op Op) error {
 			n++
 		}
 		if it.raw != nil {
-			scribble(it.raw)
 			mutated = true
+			if strings.HasPrefix(it.id, compPrefix) || hold != nil {
+				scribble(it.raw)
+			} else {
+				hold = it.raw // stays in the consumer's hands for one more step, then it is scribbled over (emitRaw)
+			}
 		}
 	}
 	if n > 0 {
@@ -905,6 +1055,7 @@ func (j *journey) deq(op Op) error {
 	j.emit("Deq", map[string]any{"ch": op.Ch, "ttl": op.TTL, "b": op.B},
 		j.obs(d.err, n, m.payload, HeaderList(m.headers), map[string]any{"att": m.attempt, "tries": tries, "mutated": mutated, "enc": m.enc,
 			"k": kObs(want, kp, kh, compP)}))
+	j.held = hold
 	return nil
 }
 
@@ -1350,6 +1501,9 @@ func (j *journey) scan() error {
 	fields["dump"] = []row{}
 	fields["sibs"] = []row{}
 	fields["other"] = 0
+	fields["noise"] = []noiseMsg{}
+	fields["nwant"] = []noiseMsg{}
+	fields["held"] = map[string]any{"n": 0}
 	b, _ := json.Marshal(fields)
 	j.r.Out.Write(ASCIIJSON(b))
 	j.r.Out.WriteByte('\n')
